@@ -2,6 +2,7 @@ import PilotaModel.Base.Sexp
 import PilotaModel.Proto.Wire
 import PilotaModel.Proto.Scalar
 import PilotaModel.Proto.Schema
+import PilotaModel.Proto.SpecExec
 /-  Line-protocol verbs of track Pb: the model's answer to each request of harness/pbshared. -/
 namespace Driver.Pb
 open Pilota Pilota.Proto
@@ -148,6 +149,32 @@ def wrapVal : Slots → Option SVal
   | .cons (.req (.s v)) .nil => some v
   | _ => none
 
+/-! ### declared schemas (C06) -/
+
+def pftyOf : Sexp → Option Spec.PFTy
+  | .atom "enum" => some .enum
+  | .atom a => Spec.PFTy.scalar <$> PType.ofName a
+  | .list [.atom "msg", i] => Spec.PFTy.msg <$> i.asNat
+  | _ => none
+
+def pdeclOf : Sexp → Option Spec.PDecl
+  | .list [.atom "f", t, ty, .atom "req"] => do pure (.single (← t.asNat) (← pftyOf ty) false)
+  | .list [.atom "f", t, ty, .atom "opt"] => do pure (.single (← t.asNat) (← pftyOf ty) true)
+  | .list [.atom "r", t, ty] => do pure (.rep (← t.asNat) (← pftyOf ty))
+  | .list [.atom "m", t, k, ty] => do pure (.map (← t.asNat) (← k.asAtom >>= PType.ofName) (← pftyOf ty))
+  | .list (.atom "o" :: vs) => do
+    let l ← vs.mapM fun v => match v with
+      | .list [t, ty] => do pure ((← t.asNat), (← pftyOf ty))
+      | _ => none
+    pure (.oneof l)
+  | _ => none
+
+def pschemaOf : Sexp → Option Spec.PSchema
+  | .list (.atom "schema" :: ms) => ms.mapM fun m => match m with
+    | .list (.atom "msg" :: ds) => ds.mapM pdeclOf
+    | _ => none
+  | _ => none
+
 def flagOf : String → Option Bool
   | "f0" => some false | "f1" => some true | _ => none
 
@@ -159,6 +186,7 @@ def normalize (items : List Sexp) : List Sexp :=
   | .atom "pbedec" :: _ :: rest => .atom "pbdec" :: .atom "hm" :: rest
   | .atom "pbemrg" :: _ :: rest => .atom "pbmrg" :: .atom "hm" :: rest
   | .atom "pbedld" :: _ :: rest => .atom "pbdld" :: .atom "hm" :: rest
+  | .atom "pbespecchk" :: _ :: rest => .atom "pbspecchk" :: .atom "hm" :: rest
   | _ => items
 
 def answer (items0 : List Sexp) : Option String := do
@@ -253,6 +281,23 @@ def answer (items0 : List Sexp) : Option String := do
     match decode s i bs with
     | .ok r => pure s!"ok {slotsSexp r}"
     | o => pure o.cls
+  | "pbspecchk" =>
+    let ps ← items[2]? >>= pschemaOf
+    let s := Spec.lowerSchema ps
+    let i ← items[3]? >>= Sexp.asNat
+    let m ← items[4]? >>= slotsOf s (decls s i)
+    let bs ← items[5]? >>= Sexp.asHex
+    let verdict := if Spec.check ps i m bs then "1" else "0"
+    match decode s i bs with
+    | .ok r => pure s!"ok {verdict} {slotsSexp r}"
+    | o => pure s!"ok {verdict} {o.cls}"
+  | "pbspecdec" =>
+    let ps ← items[1]? >>= pschemaOf
+    let i ← items[2]? >>= Sexp.asNat
+    let bs ← items[3]? >>= Sexp.asHex
+    match Spec.decode ps i bs with
+    | some r => pure s!"ok {slotsSexp r}"
+    | none => pure "err"
   | "pbunk" | "pbilv" =>
     let s ← items[2]? >>= schemaOf
     let i ← items[3]? >>= Sexp.asNat
